@@ -534,10 +534,14 @@ class POP3SubprocessInterface:
         We read each line and forward it to the POP3 client.
         """
         try:
-            while True:
-                if self.reader is None or self.reader.at_eof():
+            # NOTE: Pass on what the subprocess sends as it comes, not line by
+            #       line: a message can have more octets before the next CRLF
+            #       than the stream reader's limit.
+            #
+            while self.reader is not None:
+                msg = await self.reader.read(65536)
+                if not msg:
                     break
-                msg = await self.reader.readuntil(b"\r\n")
                 await self.pop3_client.push(msg)
         except (OSError, asyncio.IncompleteReadError, ConnectionResetError):
             pass
